@@ -265,10 +265,21 @@ func ParseSliceHeader(nalu []byte, spsMap map[uint32]*SPS, ppsMap map[uint32]*PP
 			// 0 specifies that the syntax elements num_ref_idx_l0_active_minus1 and num_ref_idx_l1_active_minus1 are not present.
 			if sh.NumRefIdxActiveOverrideFlag {
 				// value shall be in the range of 0 to 14, inclusive
-				sh.NumRefIdxL0ActiveMinus1 = uint8(r.ReadExpGolomb())
+				numRefIdxL0ActiveMinus1 := r.ReadExpGolomb()
+				numRefIdxL1ActiveMinus1 := uint(sh.NumRefIdxL1ActiveMinus1)
 				if sh.SliceType == SLICE_B {
-					sh.NumRefIdxL1ActiveMinus1 = uint8(r.ReadExpGolomb())
+					numRefIdxL1ActiveMinus1 = r.ReadExpGolomb()
 				}
+				if numRefIdxL0ActiveMinus1 > 14 || numRefIdxL1ActiveMinus1 > 14 {
+					return sh, fmt.Errorf("num_ref_idx_active_minus1 %d/%d exceeds 14",
+						numRefIdxL0ActiveMinus1, numRefIdxL1ActiveMinus1)
+				}
+				sh.NumRefIdxL0ActiveMinus1 = uint8(numRefIdxL0ActiveMinus1)
+				sh.NumRefIdxL1ActiveMinus1 = uint8(numRefIdxL1ActiveMinus1)
+			}
+			if sh.NumRefIdxL0ActiveMinus1 > 14 || sh.NumRefIdxL1ActiveMinus1 > 14 {
+				return sh, fmt.Errorf("num_ref_idx_default_active_minus1 %d/%d exceeds 14",
+					sh.NumRefIdxL0ActiveMinus1, sh.NumRefIdxL1ActiveMinus1)
 			}
 
 			if pps.ListsModificationPresentFlag {
